@@ -60,6 +60,7 @@ def _load():
 # feeds
 
 FEEDS = ('excess', 'stoich', 'limit', 'noreact', 'zero', 'only-r', 'big', 'small', 'products', 'dense', 'short', 'disparate')
+FEEDS_T = FEEDS + ('rich', 'trace', 'half')        # thorough tier adds these
 
 def feed_amounts(ri, reactant, fname):
     """dict ID -> amount for the named reaction-relative feed"""
@@ -102,6 +103,17 @@ def feed_amounts(ri, reactant, fname):
     elif fname == 'disparate':
         out[reactant] = 1. / 512.
         for k, x in need.items(): out[k] = 1000. * x
+    elif fname == 'rich':
+        out[reactant] = F
+        for k, x in need.items(): out[k] = 16 * x
+    elif fname == 'trace':
+        out[reactant] = 2. ** -20
+        for k, x in need.items(): out[k] = x
+        for k in prods: out[k] = 1.0
+    elif fname == 'half':                     # co-reactants exactly sufficient for X = 0.5
+        out[reactant] = F
+        for k, x in need.items(): out[k] = 0.5 * x
+        out[inert] = 0.375
     else: raise ValueError(fname)
     return out
 
@@ -234,14 +246,16 @@ class Target:
                             match=dict(match, field='position'))
 
 
-def single_targets(tagged, route):
+def single_targets(tagged, route, thorough=False):
     wt = route != 'mol'
     if not tagged:
         out = ['S.l', 'S.g', 'SR', 'SX', 'SB', 'SXn', 'A', 'V']
         out.append('Smass' if wt else 'Smol')
+        if thorough: out += ['S.gR', 'S.gX']
         return out
     out = ['M', 'M+', 'MR', 'MX', 'A2', 'A2+', 'V2', 'S.l', 'Mwrong']
     out.append('Mmass' if wt else 'Mdata')
+    if thorough: out += ['V2+', 'MR+', 'MX+', 'S.g']
     return out
 
 # ---------------------------------------------------------------------------------------------------------
@@ -259,6 +273,17 @@ def _full_reactant_slots(tree, out=None):
         for sub in tree[1]: _full_reactant_slots(sub, out)
     return out
 
+def _coreactant_slots(tree, out=None):
+    """slots that some member consumes as a co-reactant (nu < 0, not that member's reactant)"""
+    out = set() if out is None else out
+    if isinstance(tree, rc.RefRxn):
+        for idx in zip(*np.nonzero(tree.nu < 0)):
+            idx = tuple(int(i) for i in idx)
+            if idx != tuple(tree.ridx): out.add(idx)
+    else:
+        for sub in tree[1]: _coreactant_slots(sub, out)
+    return out
+
 def expected_outcome(n_ref, n0, tree=None, inexact=False):
     """'infeasible' : the reference needs a negative flow            -> InfeasibleRegion is demanded
        'ok'         : every entry stays clear of zero or is exact    -> a normal return is demanded
@@ -271,7 +296,9 @@ def expected_outcome(n_ref, n0, tree=None, inexact=False):
     m = float(n_ref.min()) if n_ref.size else 0.0
     if m < -band: return 'infeasible'
     if inexact:
-        exact = _full_reactant_slots(tree) if tree is not None else set()
+        # exactly zero in the library only where the species is nothing but a fully converted reactant; a species that another
+        # member of a set exhausts as a CO-reactant is a knife edge even if a later member converts it with X = 1
+        exact = (_full_reactant_slots(tree) - _coreactant_slots(tree)) if tree is not None else set()
         edge = (n_ref < n0) & (np.abs(n_ref) <= band)
         for idx in zip(*np.nonzero(edge)):
             if tuple(int(i) for i in idx) not in exact: return 'either'
@@ -393,18 +420,23 @@ class Single(System):
     def reset_globals(self): rc.reset_reaction_globals()
     def depth(self, tier): return 1
     def describe(self, tier):
-        return dict(menu=[m[0] for m in MENU], feeds=list(FEEDS), X=list(self._X(tier)))
+        return dict(menu=[MENU[i][0] for i in rc.menu_range(tier)], feeds=list(FEEDS if tier == 'quick' else FEEDS_T), X=list(self._X(tier)))
 
-    def _X(self, tier): return (0.0, 0.3, 1.0) if tier == 'quick' else (0.0, 0.3, 0.5, 1.0)
+    def _X(self, tier): return (0.0, 0.3, 1.0) if tier == 'quick' else (0.0, 0.3, 0.5, 0.75, 1.0)
 
     def configs(self, tier, seed):
         self.Xs = self._X(tier)          # set in the master before the workers are forked
         self.tier = tier
         cfgs = []
-        for ri in range(len(MENU)):
+        for ri in rc.menu_range(tier):
             for reactant in rc.reactants_of(ri):
-                for tag in ('none', 'nat', 'wg'):
+                seen_maps = []
+                for tag in (('none', 'nat', 'wg') if tier == 'quick' else ('none', 'nat', 'wg', 'ws', 'gl', 'vap')):
                     if tag == 'wg' and 'H2O' not in MENU[ri][1]: continue
+                    if tag in ('ws', 'gl', 'vap'):                 # thorough only: further phase sets; skip duplicates
+                        tm = rc.tags_of(ri, tag)
+                        if tm in seen_maps: continue
+                    if tag != 'none': seen_maps.append(rc.tags_of(ri, tag))
                     for form in ('str', 'dict'):
                         for route in rc.ROUTES:
                             for scale in (1.0, 2.0):
@@ -432,14 +464,14 @@ class Single(System):
     def actions(self, st):
         ri, reactant, tag, form, route, scale = st.config
         acts = []
-        targets = single_targets(st.tagmap is not None, route)
+        targets = single_targets(st.tagmap is not None, route, self.tier != 'quick')
         if self.tier == 'quick' and ((form != 'str') + (route != 'mol') + (scale != 1.0) >= 1 or tag == 'wg'):
             # deviation configurations: the core targets only (every target kind is covered by the base configurations)
             core = ('S.l', 'SR', 'A', 'Smass', 'Smol', 'M', 'MR', 'A2', 'V2', 'Mmass')
             targets = [t_ for t_ in targets if t_ in core]
         for tk in targets:
-            for f in FEEDS:
-                if tk in ('S.l', 'Mwrong') and st.tagmap is not None and f not in ('excess', 'zero'): continue
+            for f in (FEEDS if self.tier == 'quick' else FEEDS_T):
+                if tk in ('S.l', 'S.g', 'Mwrong') and st.tagmap is not None and f not in ('excess', 'zero'): continue
                 if tk == 'SXn' and f not in ('excess', 'stoich'): continue
                 if tk == 'SB':
                     am = feed_amounts(ri, reactant, f)
@@ -465,7 +497,7 @@ class Single(System):
         rxn.X = X
         ref = rc.RefRxn(ri, reactant, X, None if tag == 'none' else tag)
         reject = None
-        if st.tagmap is not None and tk in ('S.l', 'Mwrong'): reject = 'ValueError'
+        if st.tagmap is not None and tk in ('S.l', 'S.g', 'Mwrong'): reject = 'ValueError'
         if tk == 'SXn': reject = 'UndefinedChemical'
         if tk == 'SB':
             # a product of the reaction that the stream's package lacks cannot be written back
@@ -497,7 +529,9 @@ class Single(System):
 # ---------------------------------------------------------------------------------------------------------
 # layer 1b: sets
 
-ITEMS_FULL = [(ri, r) for ri in range(len(MENU)) for r in rc.reactants_of(ri)]
+ITEMS_FULL = [(ri, r) for ri in range(len(MENU)) for r in rc.reactants_of(ri)]       # thorough: the whole menu, every reactant
+ITEMS_TRI_T = [(0, 'H2'), (2, 'CH4'), (11, 'CH4'), (3, 'CO'), (1, 'Glucose'), (7, 'Glucose'), (9, 'Ethanol'), (0, 'O2'),
+               (21, 'O2'), (19, 'Glucose'), (18, 'H2'), (16, 'CO2')]
 ITEMS_CORE = [(0, 'H2'), (2, 'CH4'), (1, 'Glucose'), (8, 'Glucose'), (3, 'CO'), (5, 'CO'), (4, 'Ethanol'), (2, 'O2')]
 ITEMS_TRI = [(0, 'H2'), (2, 'CH4'), (11, 'CH4'), (3, 'CO'), (1, 'Glucose'), (7, 'Glucose'), (9, 'Ethanol'), (0, 'O2')]
 FOURS = [((0, 'H2'), (2, 'CH4'), (3, 'CO'), (9, 'Ethanol')), ((1, 'Glucose'), (8, 'Glucose'), (7, 'Glucose'), (4, 'Ethanol')),
@@ -508,6 +542,8 @@ TAGGED_GLS = [(1, 'Glucose'), (7, 'Glucose')]
 
 SET_FEEDS = ('gen', 'ones', 'lean', 'zero', 'mixed', 'big')
 XPATS = ('p3', 'one', 'mix', 'zero')
+SET_FEEDS_T = SET_FEEDS + ('mixed2', 'lean2')      # thorough, for triples / 4-tuples / nested / tagged sets
+XPATS_T = XPATS + ('half', 'desc')
 
 def set_feed(name, items, tagmaps):
     base = np.zeros(N)
@@ -520,6 +556,11 @@ def set_feed(name, items, tagmaps):
         base[:] = [2.5, 8.0, 0.375, 1.0, 2.0, 0.0, 4.0, 0.5, 0.25]
     elif name == 'big':
         base[:] = 8000.0; base[POS[items[0][1]]] = 1. / 512.
+    elif name == 'mixed2':
+        base[:] = [0.25, 64.0, 4.0, 0.5, 0.375, 2.0, 1.0, 2.5, 0.0]
+    elif name == 'lean2':                       # reactants of the items at 2, oxygen and water plentiful, nothing else
+        for ri, r in items: base[POS[r]] = 2.0
+        base[POS['O2']] += 32.0; base[POS['H2O']] += 32.0
     if tagmaps is None: return base
     tm = {}
     for t_ in tagmaps: tm.update(t_)
@@ -535,6 +576,8 @@ def xpat(name, k):
     if name == 'one': return tuple([1.0] * k)
     if name == 'zero': return tuple([0.0] * k)
     if name == 'mix': return tuple([0.3, 1.0, 0.0, 0.5][i % 4] for i in range(k))
+    if name == 'half': return tuple([0.5] * k)
+    if name == 'desc': return tuple([1.0, 0.5, 0.3, 0.0][i % 4] for i in range(k))
     raise ValueError(name)
 
 SET_KINDS = ('P', 'S', 'Y', 'item', 'slice')
@@ -547,7 +590,10 @@ class Sets(System):
     def warm(self): _load()
     def reset_globals(self): rc.reset_reaction_globals()
     def depth(self, tier): return 1
-    def describe(self, tier): return dict(kinds=list(SET_KINDS) + ['nested'], feeds=list(SET_FEEDS), X_patterns=list(XPATS))
+    def describe(self, tier):
+        q = tier == 'quick'
+        return dict(kinds=list(SET_KINDS) + ['nested'] + ([] if q else ['nested2']), feeds=list(SET_FEEDS if q else SET_FEEDS_T),
+                    X_patterns=list(XPATS if q else XPATS_T))
 
     def configs(self, tier, seed):
         self.tier = tier
@@ -582,6 +628,28 @@ class Sets(System):
         for its in itertools.product(TAGGED_GL[:3] if quick else TAGGED_GL[:4], repeat=3):
             for kind in ('P', 'S', 'Y', 'nested'):
                 cfgs.append((kind, its, 'nat', 'mol'))
+        if not quick:
+            have = set(cfgs)
+            def add(c):
+                if c not in have: have.add(c); cfgs.append(c)
+            # deeper thorough tier: triples over 12 items, ALL 4-tuples over 5 items, second nested shape, wider tagged pools
+            for its in itertools.product(ITEMS_TRI_T, repeat=3):
+                for kind in ('P', 'S', 'Y'):
+                    for route in ('mol', 'wt-set'): add((kind, its, 'none', route))
+            for its in itertools.product(ITEMS_TRI[:5], repeat=4):
+                for kind in ('P', 'S', 'Y', 'nested', 'nested2', 'slice'):
+                    for route in ('mol', 'wt-set'): add((kind, its, 'none', route))
+            for its in itertools.product(ITEMS_TRI[:6], repeat=3):
+                for kind in ('nested', 'nested2'):
+                    for route in ('mol', 'wt-set'): add((kind, its, 'none', route))
+            for its in itertools.product(TAGGED_GL[:5], repeat=3):
+                for kind in ('P', 'S', 'Y', 'nested', 'nested2'):
+                    for route in ('mol', 'wt-set'): add((kind, its, 'nat', route))
+            for its in itertools.product(TAGGED_GL[:3], repeat=4):
+                for kind in ('P', 'S', 'Y', 'nested', 'nested2'): add((kind, its, 'nat', 'mol'))
+            for its in itertools.product(TAGGED_GLS, repeat=3):
+                for kind in ('P', 'S', 'Y', 'nested'):
+                    for route in ('mol', 'wt-set'): add((kind, its, 'nat', route))
         k = seed % len(cfgs)
         return cfgs[k:] + cfgs[:k]
 
@@ -610,6 +678,13 @@ class Sets(System):
             else:
                 obj = t.ReactionSystem(t.ParallelReaction(rx[:2]), t.SeriesReaction(rx[2:]), rx[0])
                 tree = ('Y', [('P', refs[:2]), ('S', refs[2:]), refs[0]])
+        elif kind == 'nested2':
+            k = len(rx)
+            if k == 3:
+                obj = t.ReactionSystem(rx[0], t.SeriesReaction(rx[1:])); tree = ('Y', [refs[0], ('S', refs[1:])])
+            else:
+                obj = t.ReactionSystem(t.SeriesReaction(rx[:2]), t.ParallelReaction(rx[2:]), rx[1])
+                tree = ('Y', [('S', refs[:2]), ('P', refs[2:]), refs[1]])
         else: raise ValueError(kind)
         if route == 'wt-setcopy':
             obj = obj.copy(basis='wt')
@@ -634,6 +709,9 @@ class Sets(System):
         quick = self.tier == 'quick'
         feeds = [f for f in SET_FEEDS if not (quick and f == 'ones')]
         xps = [x for x in XPATS if not (quick and x == 'zero')]
+        if not quick and (len(items) > 2 or tag != 'none' or kind.startswith('nested')):
+            feeds = list(SET_FEEDS_T); xps = list(XPATS_T)
+            targets = targets + (['V'] if tag == 'none' else ['V2', 'M+'])
         return [(tk, f, xp) for tk in targets for f in feeds for xp in xps]
 
     def step(self, st, a):
@@ -698,14 +776,15 @@ class Balance(System):
     def configs(self, tier, seed):
         self.tier = tier
         cfgs = []
-        for ri in range(len(MENU)):
+        for ri in rc.menu_range(tier):
             d = MENU[ri][1]
             species = list(d)
             for r in rc.reactants_of(ri):
-                for tag in ('none', 'nat'):
+                for tag in (('none', 'nat') if tier == 'quick' else ('none', 'nat', 'wg', 'gl')):
+                    if tag == 'wg' and 'H2O' not in d or tag == 'gl' and 'Glucose' not in d: continue
                     for when in ('mol', 'wt-before'):
                         modes = [('ctor', ()), ('default', ())] if when == 'mol' else [('default', ())]
-                        for n in (1, 2):
+                        for n in ((1, 2) if tier == 'quick' else (1, 2, 3)):
                             for cs in itertools.combinations(species, n):
                                 modes.append(('constants', cs))
                         for mode, cs in modes:
@@ -715,7 +794,7 @@ class Balance(System):
                             A = rc.ATOM_MATRIX[:, [POS[k] for k in unknown]]
                             A = A[np.abs(A).sum(1) > 0]
                             if np.linalg.matrix_rank(A) < len(unknown): continue          # underspecified: documented RuntimeError
-                            for k in (1.0, 2.0):
+                            for k in ((1.0, 2.0) if tier == 'quick' else (1.0, 2.0, 0.5, 3.0)):
                                 if tier == 'quick' and k == 2.0 and mode != 'constants': continue
                                 cfgs.append((ri, r, tag, when, mode, cs, k))
         kk = seed % len(cfgs)
@@ -748,8 +827,8 @@ class Balance(System):
         tks = ['S.g', 'A'] if st.tagmap is None else ['M', 'A2']
         acts = [('stoichiometry',)]
         for tk in tks:
-            for f in ('excess', 'stoich', 'limit'):
-                for X in (0.3, 1.0):
+            for f in (('excess', 'stoich', 'limit') if self.tier == 'quick' else ('excess', 'stoich', 'limit', 'rich', 'half', 'only-r')):
+                for X in ((0.3, 1.0) if self.tier == 'quick' else (0.0, 0.3, 0.5, 1.0)):
                     if self.tier == 'quick' and tk in ('A', 'A2') and f != 'excess': continue
                     acts.append((tk, f, X))
         return acts
@@ -818,8 +897,8 @@ class History(System):
 
     def warm(self): _load()
     def reset_globals(self): rc.reset_reaction_globals()
-    def depth(self, tier): return 3 if tier == 'quick' else 4
-    def describe(self, tier): return dict(reactions=[repr(h) for h in HIST_RXNS])
+    def depth(self, tier): return 3 if tier == 'quick' else 5
+    def describe(self, tier): return dict(reactions=[repr(h) for h in HIST_RXNS], mode=self.mode)
 
     def configs(self, tier, seed):
         cfgs = [(kind, items, tag, b0) for (kind, items, tag) in HIST_RXNS for b0 in ('mol', 'wt')]
